@@ -8,6 +8,10 @@ cd "$(dirname "$0")/.."
 export GOFLAGS=-mod=mod GOPROXY=off GOSUMDB=off GOTOOLCHAIN=local
 {
   echo "== repo patches"
+  if ! ls $W/out/repo-patches/*.patch >/dev/null 2>&1 && [ -d $W/repo ] && [ -f $W/base_repo ]; then
+    # the builder committed in its worktree but did not export: export what is on top of its base
+    git -C $W/repo format-patch -q -o $W/out/repo-patches $(cat $W/base_repo)..HEAD
+  fi
   if ls $W/out/repo-patches/*.patch >/dev/null 2>&1; then
     git -C /repo am $W/out/repo-patches/*.patch || { echo "GIT-AM-FAILED"; git -C /repo am --abort; }
   else echo "(none)"; fi
